@@ -377,7 +377,7 @@ def run_history(ctx, scene, hist, rng, case):
             need_rebuild = any((not p.exists()) or not (p.stat().st_mtime > fm) for p in (scene.fai, scene.agp))
             if step == "crash-load":
                 locs, _ = 0, None
-                kk = rng.randint(0, 160)
+                kk = rng.randint(0, 58)
                 crashed, loc, res = sched.run_until_crash(scene.fa, kk)
                 ctx.count("history:crash-loads" if crashed else "history:crash-loads-finished-first")
                 scene.stamp_caches()
@@ -499,7 +499,7 @@ def gates(c, tier):
         "history:load:from-cache": 50,
         "history:load:rebuilt": 100,
         "history:equal-mtime-steps": 20,
-        "history:crash-loads": 50,
+        "history:crash-loads": 30,
         "crash:runs": 400,
         "crash:at-raw-file-op": 100,
         "sched:runs": 600,
